@@ -7,7 +7,7 @@ export GOFLAGS=-mod=mod GOPROXY=off
 WT=$(mktemp -d /tmp/confirm.XXXXXX)
 git -C /repo worktree add -q --detach "$WT" HEAD || exit 2
 # the seed may have been written against an earlier commit of /repo (before a later fix: commit)
-for back in 0 1 2 3 4 5 6 7 8 9 10 11 12; do
+for back in $(seq 0 60); do
   git -C "$WT" checkout -q --detach "$(git -C /repo rev-parse HEAD~$back)" 2>/dev/null || break
   if git -C "$WT" apply --check "$S/patch.diff" 2>/dev/null; then break; fi
 done
